@@ -2,6 +2,7 @@ package props
 
 import (
 	"bytes"
+	"context"
 	"encoding/binary"
 	"fmt"
 	"hash/crc32"
@@ -202,6 +203,21 @@ func runC09(c *core.Ctx) {
 			per = 10 + rng.Intn(20)
 			closeInFlight = false
 		}
+		// the context the channel was created with ends while streamed messages are being written on a synchronous channel:
+		// nobody closes the channel (its read loop is parked), writes go on, and messages still must not interleave
+		parentEnds := idx%8 == 4
+		if parentEnds {
+			mode = mon.Sync
+			carrier = []string{"io.Reader", "io.MultiReader", "*bytes.Reader", "*strings.Reader"}[rng.Intn(4)]
+			if pipe == "delimiter+text" && rng.Intn(2) == 0 {
+				carrier = "string"
+			}
+			carrier2 = carrier
+			sizeClass = 2
+			sizes = []int{2047, 2048, 2049, 3000, 5000}
+			per = 20 + rng.Intn(30)
+			closeInFlight, senderFault = false, false
+		}
 		procs := []int{1, 1, 2, 4, 8, 16}[rng.Intn(6)]
 		runtime.GOMAXPROCS(procs)
 
@@ -225,7 +241,13 @@ func runC09(c *core.Ctx) {
 			plan = []mon.Step{{At: "tV0", Occ: 0, Kind: mon.Sleep, D: time.Duration(100+rng.Intn(400)) * time.Microsecond},
 				{At: "tW0", Occ: 0, Kind: mon.Sleep, D: time.Duration(50+rng.Intn(100)) * time.Microsecond}}
 		}
+		var parentCancel context.CancelFunc
 		ro := mon.RigOpts{Mode: mode, Queue: q, Handlers: handlers, QuietTail: true, Plan: plan}
+		if parentEnds {
+			ro.Ctx, parentCancel = context.WithCancel(context.Background())
+			ro.Plan = []mon.Step{{At: "tW0", Occ: 0, Kind: mon.Sleep, D: time.Duration(20+rng.Intn(100)) * time.Microsecond},
+				{At: "tV0", Occ: 0, Kind: mon.Sleep, D: time.Duration(20+rng.Intn(100)) * time.Microsecond}}
+		}
 		if idx%5 == 4 {
 			// on the library's own (buffering) transport wrapper: the bytes are judged at the connection underneath
 			wraps := [][2]int{{0, 4096}, {0, 64}, {4096, 4096}, {0, 0}}
@@ -260,11 +282,15 @@ func runC09(c *core.Ctx) {
 					if w%2 == 1 {
 						car = carrier2
 						if carrier2 != carrier {
-							data = data[:64] // short single-write messages slip between the chunks of a streamed one
+							sz := 64 // short single-write messages slip between the chunks of a streamed one
+							if !text && carrier2 == "[][]byte" && seq%4 == 1 {
+								sz = 70000 // ... and so must the ones above the pool's largest size class
+							}
+							data = data[:64]
 							if text {
 								data = []byte(armoured(w, seq, 64))
 							} else {
-								data = mon.Payload(w, seq, 64)
+								data = mon.Payload(w, seq, sz)
 							}
 						}
 					}
@@ -281,6 +307,18 @@ func runC09(c *core.Ctx) {
 			}(w)
 		}
 		var cg sync.WaitGroup
+		if parentEnds {
+			after := 5 + rng.Intn(40)
+			cg.Add(1)
+			go func() {
+				defer cg.Done()
+				for i := 0; i < 100000 && rig.S.Count("tW0")+rig.S.Count("tV0") < after; i++ {
+					time.Sleep(20 * time.Microsecond)
+				}
+				parentCancel()
+			}()
+			c.Count("trials_parent_context_ends_mid_traffic", 1)
+		}
 		if closeInFlight {
 			after := 1 + rng.Intn(6)
 			wdone := make(chan struct{})
@@ -310,6 +348,10 @@ func runC09(c *core.Ctx) {
 			c.Inconclusive(id, "watchdog: writers stuck")
 			rig.Dispose()
 			continue
+		}
+		if parentEnds {
+			cg.Wait()
+			parentCancel()
 		}
 		if closeInFlight {
 			cg.Wait()
